@@ -197,6 +197,30 @@ fn static_checks(col: &mut Collector, n_bases: usize) -> Vec<Failure> {
     if <Parameters as CurveConfig>::COFACTOR != [1u64] || <Parameters as CurveConfig>::COFACTOR_INV != Fr::one() {
         fail("cofactor", "declared cofactor (or its inverse) is not 1".into());
     }
+    // every way the crate declares the two fields names the same moduli: the field types, the
+    // curve configuration's associated types, and the exported Montgomery configurations
+    {
+        use ark_bulletproofs::curve::zorro::{FqConfig, FrConfig};
+        use ark_ff::MontConfig;
+        let cfg_r = BigUint::from_bytes_le(&<FrConfig as MontConfig<4>>::MODULUS.to_bytes_le());
+        let cfg_q = BigUint::from_bytes_le(&<FqConfig as MontConfig<4>>::MODULUS.to_bytes_le());
+        let cur_r = big_mod::<<Parameters as CurveConfig>::ScalarField>();
+        let cur_q = big_mod::<<Parameters as CurveConfig>::BaseField>();
+        col.evals_add(4);
+        if cfg_r != r || cur_r != r {
+            fail("scalar-field-declarations-disagree", format!("scalar field modulus: Fr = {}, FrConfig = {}, curve configuration = {}", r, cfg_r, cur_r));
+        }
+        if cfg_q != q || cur_q != q {
+            fail("base-field-declarations-disagree", format!("base field modulus: Fq = {}, FqConfig = {}, curve configuration = {}", q, cfg_q, cur_q));
+        }
+        // the exported configuration's own generator / one are elements of that field
+        let one_cfg = BigUint::from_bytes_le(&<FrConfig as MontConfig<4>>::R.to_bytes_le());
+        let r_mont = (BigUint::from(1u32) << 256) % &r;
+        if one_cfg != r_mont {
+            fail("scalar-field-declarations-disagree", "FrConfig's Montgomery constant R is not 2^256 mod r".into());
+        }
+        col.class("field-declarations-agree");
+    }
     col.class("order-argument");
     out
 }
